@@ -151,7 +151,8 @@ def run(ctx, ck):
     # H = curl A by central differences of the displaced vector potentials
     ck.rule('R-POLY.curl', 'H[a] = sum eps(a,i,c) (A[+][i][c] - A[-][i][c]): every term of the curl has its permutation sign')
     from ._curl import check_curl
-    ck.floor('curl terms (2 sides x 6 derivatives)', check_curl(ctx, ck, f), 12)
+    from ..rules import self_closure
+    ck.floor('curl terms (2 sides x 6 derivatives)', check_curl(ctx, ck, f, others=self_closure(ctx, ctx.model.func(NF))), 12)
     from ._sym import check_ground_symmetry
     ck.rule('R-SYM.ground-halves', 'statements selecting one half of the ground flags select the other too')
     nsel, nst = check_ground_symmetry(ctx, ck)
